@@ -155,4 +155,47 @@ var Lexical = []Family{
 	{"distinct_statements", func(n int) string { return repIndexed("SELECT c{i} FROM t{i} WHERE a = {i};\n", n) }},
 	{"distinct_numbers", func(n int) string { return "SELECT " + repIndexed("{i}.5, ", n) + "1" }},
 	{"distinct_keywords_misspelt", func(n int) string { return repIndexed("SELEC{i} FORM{i} ", n) }},
+	// DDL, MERGE and the MySQL forms: wide lists inside one statement
+	{"create_table_columns", func(n int) string { return "CREATE TABLE t (" + repIndexed("c{i} INT NOT NULL DEFAULT {i}, ", n) + "z INT)" }},
+	{"create_table_constraints", func(n int) string {
+		return "CREATE TABLE t (a INT, " + repIndexed("CONSTRAINT k{i} CHECK (a <> {i}), ", n) + "PRIMARY KEY (a))"
+	}},
+	{"create_table_foreign_keys", func(n int) string {
+		return "CREATE TABLE t (a INT, " + repIndexed("FOREIGN KEY (a) REFERENCES r{i} (id) ON DELETE CASCADE, ", n) + "UNIQUE (a))"
+	}},
+	{"partition_definitions", func(n int) string {
+		return "CREATE TABLE t (a INT) PARTITION BY RANGE (a) (" + repIndexed("PARTITION p{i} VALUES LESS THAN ({i}), ", n) + "PARTITION pmax VALUES LESS THAN MAXVALUE)"
+	}},
+	{"partition_in_values", func(n int) string {
+		return "CREATE TABLE t (a INT) PARTITION BY LIST (a) (PARTITION p0 VALUES IN (" + repIndexed("{i}, ", n) + "0))"
+	}},
+	{"index_columns", func(n int) string { return "CREATE INDEX ix ON t (" + repIndexed("c{i} DESC NULLS LAST, ", n) + "z)" }},
+	{"drop_table_list", func(n int) string { return "DROP TABLE IF EXISTS " + repIndexed("s.t{i}, ", n) + "z CASCADE" }},
+	{"truncate_list", func(n int) string { return "TRUNCATE TABLE " + repIndexed("t{i}, ", n) + "z" }},
+	{"merge_when_clauses", func(n int) string {
+		return "MERGE INTO t USING s ON t.a = s.a" + repIndexed(" WHEN MATCHED AND s.b = {i} THEN UPDATE SET c = {i}", n) + " WHEN NOT MATCHED THEN INSERT (a) VALUES (s.a)"
+	}},
+	{"merge_insert_values", func(n int) string {
+		return "MERGE INTO t USING s ON t.a = s.a WHEN NOT MATCHED THEN INSERT VALUES (" + repIndexed("s.c{i}, ", n) + "1)"
+	}},
+	{"replace_rows", func(n int) string { return "REPLACE INTO t (a, b) VALUES " + repIndexed("({i}, 'v{i}'), ", n) + "(0, 'z')" }},
+	{"on_duplicate_key_assignments", func(n int) string {
+		return "INSERT INTO t (a) VALUES (1) ON DUPLICATE KEY UPDATE " + repIndexed("c{i} = c{i} + 1, ", n) + "z = 0"
+	}},
+	{"on_conflict_assignments", func(n int) string {
+		return "INSERT INTO t (a) VALUES (1) ON CONFLICT (a) DO UPDATE SET " + repIndexed("c{i} = {i}, ", n) + "z = 0"
+	}},
+	{"returning_list", func(n int) string { return "DELETE FROM t WHERE a = 1 RETURNING " + repIndexed("c{i}, ", n) + "z" }},
+	{"insert_column_list", func(n int) string { return "INSERT INTO t (" + repIndexed("c{i}, ", n) + "z) SELECT * FROM s" }},
+	{"window_partition_list", func(n int) string { return "SELECT sum(a) OVER (PARTITION BY " + repIndexed("c{i}, ", n) + "z ORDER BY a) FROM t" }},
+	{"grouping_sets_list", func(n int) string { return "SELECT a FROM t GROUP BY GROUPING SETS (" + repIndexed("(a, c{i}), ", n) + "())" }},
+	{"array_elements", func(n int) string { return "SELECT ARRAY[" + repIndexed("{i}, ", n) + "0]" }},
+	{"match_against_columns", func(n int) string {
+		return "SELECT a FROM t WHERE MATCH (" + repIndexed("c{i}, ", n) + "z) AGAINST ('x' IN BOOLEAN MODE)"
+	}},
+	{"alter_statements", func(n int) string { return repIndexed("ALTER TABLE t{i} ADD COLUMN c{i} INT;\n", n) }},
+	{"show_describe_statements", func(n int) string { return repIndexed("SHOW COLUMNS FROM t{i};\nDESCRIBE t{i};\n", n) }},
+	{"from_list_tables", func(n int) string { return "SELECT 1 FROM " + repIndexed("t{i} a{i}, ", n) + "z" }},
+	{"using_join_columns", func(n int) string { return "SELECT 1 FROM t JOIN u USING (" + repIndexed("c{i}, ", n) + "z)" }},
+	{"for_update_of_list", func(n int) string { return "SELECT 1 FROM t FOR UPDATE OF " + repIndexed("t{i}, ", n) + "t" }},
 }
